@@ -332,3 +332,64 @@ Definition params_ok (P : params) (b : backend) : bool :=
   end.
 
 Definition repaired (b : backend) : bool := match b with BRedisOld => false | _ => true end.
+
+(* ------------------------------------------------------------------ the observable lock status *)
+(* status of every name after a trace, computed from OBSERVABLE facts only (who called what, and
+   what the call returned): get returned True -> held by the caller; a release begins -> free;
+   fail returned True -> failed.  Nothing else changes it. *)
+Definition ghost_ev (g : name -> gst) (e : event) : name -> gst :=
+  updg g (e_n e) (ghost_upd (g (e_n e)) (e_op e) (e_c e) (e_pc e) (e_ret e)).
+
+Definition all_free : name -> gst := fun _ => GFree.
+Definition status_after (tr : list event) : name -> gst := fold_left ghost_ev tr all_free.
+
+(* ------------------------------------------------------------------ sequential runs of the specification *)
+(* the operations, each taken as ONE atomic step of [spec_op] at the primitive after which it
+   returned, in trace order, explain every returned value *)
+Fixpoint spec_accepts (g : name -> gst) (tr : list event) : bool :=
+  match tr with
+  | [] => true
+  | e :: r =>
+      match e_ret e with
+      | None => spec_accepts g r
+      | Some v =>
+          let gv := spec_op (e_op e) (e_c e) (g (e_n e)) in
+          ores_eqb v (snd gv) && spec_accepts (updg g (e_n e) (fst gv)) r
+      end
+  end.
+
+Fixpoint spec_final (g : name -> gst) (tr : list event) : name -> gst :=
+  match tr with
+  | [] => g
+  | e :: r =>
+      match e_ret e with
+      | None => spec_final g r
+      | Some _ => spec_final (updg g (e_n e) (fst (spec_op (e_op e) (e_c e) (g (e_n e))))) r
+      end
+  end.
+
+(* the same for ONE lock, on the sub-trace of one name: no other name is mentioned *)
+Fixpoint spec_accepts1 (g : gst) (tr : list event) : bool :=
+  match tr with
+  | [] => true
+  | e :: r =>
+      match e_ret e with
+      | None => spec_accepts1 g r
+      | Some v => ores_eqb v (snd (spec_op (e_op e) (e_c e) g)) && spec_accepts1 (fst (spec_op (e_op e) (e_c e) g)) r
+      end
+  end.
+
+(* ------------------------------------------------------------------ event classes *)
+Definition ev_on (n : name) (e : event) : bool := Nat.eqb (e_n e) n.
+(* a get on n returned (with whatever value) at this primitive *)
+Definition get_returned (n : name) (e : event) : bool :=
+  ev_on n e && lockop_eqb (e_op e) OGet && is_some (e_ret e).
+(* a get on n returned True at this primitive *)
+Definition get_won (n : name) (e : event) : bool :=
+  ev_on n e && lockop_eqb (e_op e) OGet && oores_eqb (e_ret e) (Some (OB true)).
+
+(* configurations reached along a schedule *)
+Definition cfg_after (P : params) (b : backend) (hists : list (list (lockop * name))) (s : list cid) : cfg :=
+  fst (run P b (init hists) s).
+Definition trace_of (P : params) (b : backend) (hists : list (list (lockop * name))) (s : list cid) : list event :=
+  snd (run P b (init hists) s).
